@@ -79,15 +79,19 @@ class Job:
         self.deadline_s = JOB_DEADLINE[tier]
 
     # -- exploration
-    def explore(self, fn, max_paths=400, label=None):
+    def explore(self, fn, max_paths=400, label=None, fallback=None):
+        """fallback=(oracle, args): what to replay when a path uses a construct the engine cannot model"""
+        fallback = fallback or getattr(self, "default_fallback", None)
         res, st = explore(fn, max_paths=max_paths)
         for k in ("paths", "infeasible", "truncated", "unsupported", "queries", "solver_s"):
             self.stats[k] += st[k]
         for r in res:
             if r.kind == "unsupported":
                 self.notes.append("unsupported construct on a path of %s: %s" % (label or self.name, r.value))
-                self.obligations.append(dict(name="%s: engine supports the path" % (label or self.name),
-                                             verdict="unknown", secs=0.0))
+                why = "%s: engine supports the path" % (label or self.name)
+                self.obligations.append(dict(name=why, verdict="unknown", secs=0.0))
+                if fallback is not None:
+                    self.candidates.append(dict(oracle=fallback[0], args=enc(fallback[1]), why=why))
         return [r for r in res if r.kind != "unsupported"]
 
     def reach(self, r, label=""):
@@ -179,6 +183,15 @@ def _run_job(spec):
     mod = sys.modules[modname]
     J = Job(kwargs.pop("_name", fname), tier)
     loader.ENTERED.clear()
+    import signal
+
+    def _alarm(signum, frame):
+        raise TimeoutError("job exceeded 90%% of its wall-clock deadline in Python code")
+    try:
+        signal.signal(signal.SIGALRM, _alarm)
+        signal.setitimer(signal.ITIMER_REAL, 0.9 * J.deadline_s)
+    except Exception:
+        pass
     try:
         getattr(mod, fname)(J, **kwargs)
     except EngineUnsupported as e:
@@ -187,6 +200,10 @@ def _run_job(spec):
     except Exception as e:
         J.notes.append("harness error: " + traceback.format_exc()[-1500:])
         J.obligations.append(dict(name="harness ran", verdict="error", secs=0.0))
+    try:
+        signal.setitimer(signal.ITIMER_REAL, 0)
+    except Exception:
+        pass
     out = J.result()
     out["wall_s"] = round(time.time() - t0, 2)
     return out
